@@ -1,6 +1,7 @@
 package main
 
 import (
+	"fmt"
 	"go/token"
 	"go/types"
 	"strings"
@@ -21,6 +22,7 @@ func checkC13(w *World, r *Report) {
 	c13RawPath(w, r, ctxI)
 	c13Forwarding(w, r, ctxI)
 	c13Lookup(w, r, rfI)
+	c13EnvoyRawHeaders(w, r)
 }
 
 // declaredMethod returns the method `name` declared on t itself (not promoted), or nil.
@@ -366,3 +368,51 @@ func c13Lookup(w *World, r *Report, rfI *types.Interface) {
 }
 
 var _ = token.ADD
+
+// c13EnvoyRawHeaders (C13.5): Envoy hands over request header names in lower case. A lookup in
+// the raw header map must therefore use a lower-case key (the canonicalised copy built by the
+// request context is looked up canonically, C13.4).
+func c13EnvoyRawHeaders(w *World, r *Report) {
+	ri := r.Rule("C13.5", 1, "lookups in Envoy's raw request header map use lower-case keys (Envoy lower-cases header names), so the gRPC entry point sees the same headers the HTTP entry points see")
+	n := 0
+	for _, fn := range w.Funcs {
+		if w.isMockFn(fn) {
+			continue
+		}
+		eachInstr(fn, func(in ssa.Instruction) {
+			lk, ok := in.(*ssa.Lookup)
+			if !ok {
+				return
+			}
+			fromEnvoy := false
+			for _, o := range w.Origins(lk.X, nil) {
+				if c, ok := o.(*ssa.Call); ok && strings.HasSuffix(callName(c.Common()), "AttributeContext_HttpRequest.GetHeaders") {
+					fromEnvoy = true
+				}
+			}
+			if !fromEnvoy {
+				return
+			}
+			n++
+			r.Analysed(w.FnName(fn))
+			okKey := false
+			why := ""
+			if s, isConst := constString(lk.Index); isConst {
+				okKey = s == strings.ToLower(s)
+				why = fmt.Sprintf("constant key %q is not lower case", s)
+			} else {
+				okKey = dependsOn(w, lk.Index, func(x ssa.Value) bool {
+					c, ok := x.(*ssa.Call)
+					return ok && callName(c.Common()) == "strings.ToLower"
+				})
+				why = "the key is not lower-cased"
+			}
+			r.Ob(ri, fmt.Sprintf("%s|raw-envoy-header-lookup#%d", w.FnName(fn), n), lk.Pos(), okKey,
+				"a header is looked up in Envoy's raw header map under a key that never matches ("+why+"): the gRPC entry point behaves as if the client had not sent it")
+		})
+	}
+	if n == 0 {
+		r.Note("C13.5: no direct lookup in Envoy's raw header map in the module (all reads go through the canonicalised copy)")
+		r.Ob(ri, "no-raw-lookups", token.NoPos, true, "")
+	}
+}
